@@ -5,6 +5,9 @@ from ..core import modules_for
 
 def run(ctx):
     q = ctx.tier == "quick"
+    if not getattr(ctx, "replay", None):
+        from .. import g72x as _g72x
+        _g72x.pregen(ctx)
     run_common(ctx, "C06", modules_for("C06"), l1_scripts=300 if q else 3000, stride=2 if q else 1, nops=40 if q else 80)
     if not getattr(ctx, "replay", None):
         from .. import blockcamp
@@ -13,3 +16,5 @@ def run(ctx):
         dwvw.run(ctx, "C06", 120 if q else 1200)
         from .. import nms
         nms.run(ctx, "C06", 120 if q else 1200)
+        from .. import g72x
+        g72x.run(ctx, "C06", 120 if q else 1200)
